@@ -375,6 +375,22 @@ void h_heap(void)
   }
 }
 
+
+/* ================= init_io(): per-run reset of the I/O side, shared by schedule() and the -cdf copy() (C18 O18.1, C19) ================= */
+void h_init_io(void)
+{
+  setup(); g_iter_stop = 0; g_fn = FN_OTHER; g_multi = 0;           /* no thread of this run exists yet */
+  { bool a, b; request_close = a; finish = b; }                       /* whatever the previous operand left (a finished decompression leaves request_close set) */
+  { unsigned o; V_ASSUME(o >= 1 && o <= 8); out_slots = o; }
+  { unsigned sz, hd; output_q.size = sz; output_q.head = hd; output_q.root = 0; }
+  unsigned cap = out_slots;
+  init_io();
+  V_ASSERT(!request_close && !finish, "init_io(): every run starts with no close request and no finish request pending, whatever the previous run left");
+  V_ASSERT(output_q.size == 0 && output_q.modulus == cap && __CPROVER_OBJECT_SIZE(output_q.root) == cap * sizeof(struct block), "init_io(): the output queue starts empty with room for every output slot");
+  V_ASSERT(g_threads_created == 2, "init_io(): the writer and the reader thread are started");
+  V_CANARY("init_io");
+}
+
 #ifdef VERIF_REPLAY
 int main(void) { HARNESS(); puts("REPLAY-PASS"); return 0; }
 #endif
